@@ -87,6 +87,12 @@ Section WithMv.
         apply memo_of_some in M. symmetry. apply M.
     - split; [apply (in_wlocs cd (IWriteTx c)); [exact Hi|left; reflexivity]|].
       split; [exact Logic.I|exact Ht].
+    - (* IProxy *)
+      destruct (sub st) as [|n].
+      + split; [apply (in_wlocs cd (IProxy c)); [exact Hi|left; reflexivity]|].
+        split; [unfold wr_ok; cbn; reflexivity|]. unfold cinv; cbn. exact I.
+      + split; [apply (in_rlocs cd (IProxy c)); [exact Hi|left; reflexivity]|].
+        intro v. destruct (is_none v); unfold cinv; cbn; [exact I|exact Ht].
     - exact Ht.
     - split; [apply (in_wlocs cd (IWriteRx c)); [exact Hi|left; reflexivity]|].
       split; [exact Logic.I|exact Ht].
